@@ -1,13 +1,17 @@
 #!/bin/bash
-# usage: tools/seedtest.sh <patch.diff> <prop> [<prop> ...]   - apply a seeded change to /repo, run the quick checks, undo it
+# usage: tools/seedtest.sh <patch.diff> <prop> [<prop> ...]
+# tries a seeded change: applies it in a scratch worktree of /repo (outside /repo and /verif), runs the quick checks against that
+# checkout (VERIF_REPO) with evidence/replays redirected (VERIF_OUT_DIR), then resets the worktree.  /repo itself is never touched.
 set -u
 patch=$1; shift
-cd /repo && git status --short | grep -q . && { echo "/repo not clean"; exit 3; }
-git -C /repo apply "$patch" || { echo "patch does not apply"; exit 3; }
+wt=/tmp/wt/seedrepo
+[ -d $wt ] || git -C /repo worktree add --detach $wt HEAD -q
+cd $wt && git checkout -q --detach $(git -C /repo rev-parse HEAD) && git checkout -- . && git clean -fdq
+git apply "$patch" || { echo "patch does not apply"; exit 3; }
 cd /verif
 for p in "$@"; do
-  out=$(timeout 1500 python3-vt check.py $p --tier ${TIER:-quick} 2>&1); rc=$?
+  out=$(VERIF_REPO=$wt VERIF_OUT_DIR=/tmp/seedout timeout 1800 python3-vt check.py $p --tier ${TIER:-quick} 2>&1); rc=$?
   echo "== $p rc=$rc"
-  echo "$out" | grep -E "^VIOLATION|^   what|^INCONCLUSIVE|^KNOWN|tier=" | head -${LINES_SHOWN:-6}
+  echo "$out" | grep -E "^VIOLATION|^   what|^INCONCLUSIVE|^KNOWN|tier=" | cut -c1-500 | head -${LINES_SHOWN:-6}
 done
-git -C /repo checkout -- . ; git -C /repo status --short
+cd $wt && git checkout -- . && git clean -fdq
